@@ -474,7 +474,7 @@ def run_property(prop, tier, seed, only=None, procs=None, scale=1.0):
         status, ctx, info = execute(sc, doc["case"], frozenset())
         replay_stats.note(doc["case"], "ok" if status == "violation" and expect != "pass" else status, ctx, info)
         n_replayed += 1
-        if expect.startswith("known:"):
+        if expect.startswith(("known:", "finding:")):
             fid = expect.split(":", 1)[1]
             entry = next((f for f in findings if f["id"] == fid), None)
             if entry is None:
